@@ -15,6 +15,7 @@ use rs_matter::crypto::{default_crypto, CanonAeadKey, CanonPkcSecretKey, Crypto,
 use rs_matter::dm::clusters::app::level_control::LevelControlHooks;
 use rs_matter::dm::clusters::app::on_off::{self, test::TestOnOffDeviceLogic, OnOffHooks};
 use rs_matter::dm::clusters::desc::{self, ClusterHandler as _};
+use rs_matter::dm::clusters::groups::{self, ClusterHandler as _, GroupsHandler};
 use rs_matter::dm::clusters::net_comm::DummyNetworks;
 use rs_matter::dm::devices::test::{DAC_PRIVKEY, TEST_DEV_ATT, TEST_DEV_COMM, TEST_DEV_DET};
 use rs_matter::dm::devices::DEV_TYPE_ON_OFF_LIGHT;
@@ -39,6 +40,8 @@ use crate::net::{self, Net};
 use crate::tape::{NodeRng, Rng};
 
 pub const TEST_PASSCODE: u32 = 20202021;
+pub const GROUP_ID: u16 = 0x002A;
+pub const GROUP_KEY_SET_ID: u16 = 0x01A3;
 
 pub const NODE: Node<'static> = Node {
     endpoints: &[
@@ -46,7 +49,7 @@ pub const NODE: Node<'static> = Node {
         Endpoint::new(
             1,
             devices!(DEV_TYPE_ON_OFF_LIGHT),
-            clusters!(desc::DescHandler::CLUSTER, TestOnOffDeviceLogic::CLUSTER),
+            clusters!(desc::DescHandler::CLUSTER, groups::GroupsHandler::CLUSTER, TestOnOffDeviceLogic::CLUSTER),
         ),
     ],
 };
@@ -62,6 +65,10 @@ fn data_model<'a, OH: OnOffHooks, LH: LevelControlHooks>(
             .chain(
                 EpClMatcher::new(Some(1), Some(desc::DescHandler::CLUSTER.id)),
                 Async(desc::DescHandler::new(Dataver::new_rand(&mut rand)).adapt()),
+            )
+            .chain(
+                EpClMatcher::new(Some(1), Some(groups::GroupsHandler::CLUSTER.id)),
+                Async(GroupsHandler::new(Dataver::new_rand(&mut rand)).adapt()),
             )
             .chain(
                 EpClMatcher::new(Some(1), Some(TestOnOffDeviceLogic::CLUSTER.id)),
@@ -122,6 +129,8 @@ pub struct FabricInfo {
     pub noc_hash: u64,
     pub icac_hash: u64,
     pub acl: Vec<String>,
+    /// Group table, group key map and ids of the group key sets (Debug renderings)
+    pub groups: Vec<String>,
 }
 
 /// What the device probe publishes
@@ -168,6 +177,13 @@ pub fn dev_state(matter: &Matter<'_>) -> DevState {
                             a.targets().into_option().map(|t| t.to_vec())
                         )
                     })
+                    .collect(),
+                groups: f
+                    .groups()
+                    .iter()
+                    .map(|g| format!("group {g:?}"))
+                    .chain(f.groups().key_map_iter().map(|m| format!("map {m:?}")))
+                    .chain(f.groups().key_set_iter().map(|k| format!("key set {}", k.group_key_set_id)))
                     .collect(),
             })
             .collect()
@@ -350,6 +366,10 @@ pub enum CtlStep {
     CommissioningCompleteCase { dev: usize },
     /// Replace our fabric's ACL over CASE by [administer: our node id, operate: `subject`]
     AclWrite { dev: usize, subject: u64 },
+    /// KeySetWrite of group key set 0x01A3 and a GroupKeyMap entry for group 0x002A
+    GroupKeys { dev: usize },
+    /// AddGroup(0x002A, name) on endpoint 1; fails unless the device answers with status 0
+    AddGroup { dev: usize, name: &'static str },
 }
 
 pub struct ControllerCtx {
@@ -572,6 +592,8 @@ async fn controller_script<C: Crypto>(matter: &Matter<'_>, crypto: &C, ctx: &Con
             CtlStep::ArmFailSafeChecked { .. } => "arm_failsafe_checked",
             CtlStep::CommissioningCompleteCase { .. } => "commissioning_complete_case",
             CtlStep::AclWrite { .. } => "acl_write",
+            CtlStep::GroupKeys { .. } => "group_keys",
+            CtlStep::AddGroup { .. } => "add_group",
         };
         log_ev(&ctx.log, ctx.node, ctx.incarnation, FullKind::Step { name, result: None });
         let r: Result<(), Error> = match step {
@@ -760,6 +782,67 @@ async fn controller_script<C: Crypto>(matter: &Matter<'_>, crypto: &C, ctx: &Con
                     handle.complete().await?;
                     log_ev(&ctx.log, ctx.node, ctx.incarnation, FullKind::Note(format!("commissioning_complete -> {code:?}")));
                     if code != CommissioningErrorEnum::OK {
+                        return Err(rs_matter::error::ErrorCode::Failure.into());
+                    }
+                    Ok(())
+                }
+                .await
+            }
+            CtlStep::GroupKeys { dev } => {
+                async {
+                    use rs_matter::dm::clusters::decl::group_key_management::{
+                        GroupKeyManagementAttrWrites as _, GroupKeyManagementClient as _, GroupKeyMulticastPolicyEnum, GroupKeySecurityPolicyEnum,
+                    };
+                    use rs_matter::im::client::ImClient as _;
+                    use rs_matter::tlv::{Nullable, OctetStr};
+                    let exchange = Exchange::initiate(matter, crypto, fab_idx, device_node_id(*dev)).await?;
+                    exchange
+                        .group_key_management()
+                        .key_set_write(0, |b| {
+                            b.group_key_set()?
+                                .group_key_set_id(GROUP_KEY_SET_ID)?
+                                .group_key_security_policy(GroupKeySecurityPolicyEnum::TrustFirst)?
+                                .epoch_key_0(Nullable::some(OctetStr::new(&[0x5a; 16])))?
+                                .epoch_start_time_0(Nullable::some(1))?
+                                .epoch_key_1(Nullable::none())?
+                                .epoch_start_time_1(Nullable::none())?
+                                .epoch_key_2(Nullable::none())?
+                                .epoch_start_time_2(Nullable::none())?
+                                .group_key_multicast_policy(GroupKeyMulticastPolicyEnum::PerGroupID)?
+                                .end()?
+                                .end()
+                        })
+                        .await?;
+                    let exchange = Exchange::initiate(matter, crypto, fab_idx, device_node_id(*dev)).await?;
+                    let handle = exchange
+                        .write_with(None, |builder| {
+                            let entries = builder.write_requests()?;
+                            let map = entries.group_key_management_write().group_key_map(0)?;
+                            let map = map.push()?.group_id(GROUP_ID)?.group_key_set_id(GROUP_KEY_SET_ID)?.fabric_index(None)?.end()?;
+                            map.end()?.end()?.end()?.end()
+                        })
+                        .await?;
+                    let resp = handle.response()?;
+                    for status in resp.write_responses.iter() {
+                        let status = status?;
+                        if status.status.status != rs_matter::im::IMStatusCode::Success {
+                            return Err(rs_matter::error::ErrorCode::Failure.into());
+                        }
+                    }
+                    Ok(())
+                }
+                .await
+            }
+            CtlStep::AddGroup { dev, name } => {
+                async {
+                    use rs_matter::dm::clusters::decl::groups::GroupsClient as _;
+                    let exchange = Exchange::initiate(matter, crypto, fab_idx, device_node_id(*dev)).await?;
+                    let name = *name;
+                    let handle = exchange.groups().add_group(1, |b| b.group_id(GROUP_ID)?.group_name(name)?.end()).await?;
+                    let st = handle.response()?.status()?;
+                    handle.complete().await?;
+                    if st != 0 {
+                        log_ev(&ctx.log, ctx.node, ctx.incarnation, FullKind::Note(format!("add_group -> status {st}")));
                         return Err(rs_matter::error::ErrorCode::Failure.into());
                     }
                     Ok(())
